@@ -10,6 +10,7 @@ import (
 	"strconv"
 	"strings"
 	"sync/atomic"
+	"verif/harness/uni"
 
 	"deps.dev/util/resolve"
 	"deps.dev/util/resolve/dep"
@@ -292,8 +293,21 @@ func newSharedResolver(cases []markerCase, idx []int) *sharedResolver {
 			[]resolve.RequirementVersion{{VersionKey: vk("root"+n, "", resolve.Requirement), Type: te}})
 	}
 	cc := &countClient{c: lc, max: stepBudget, cancel: func() {}}
-	return &sharedResolver{cc: cc, res: pypi.NewResolver(cc)}
+	s := &sharedResolver{cc: cc, res: pypi.NewResolver(cc)}
+	// Every other shared resolver starts with its bounded caches filled beyond
+	// their capacity (see uni.SaturatePyPI): the batch's markers are then
+	// inserted through the eviction path and looked up again by later cases.
+	if sharedResolvers.Add(1)%2 == 0 {
+		cc.max = 1 << 40
+		uni.SaturatePyPI(s.res, func(c resolve.Client) { cc.c = c })
+		cc.c, cc.max = lc, stepBudget
+		cc.n.Store(0)
+		saturatedShared.Add(1)
+	}
+	return s
 }
+
+var sharedResolvers, saturatedShared atomic.Int64
 
 // resolve resolves top<i> on the shared resolver (calls are sequential).
 func (s *sharedResolver) resolve(i int) (o obs) {
